@@ -53,8 +53,9 @@ TraceResolve ==
 
 (* items of the logical dump that differ from the logical container (available packs only) *)
 TraceDumpDiff == IsEvent("DumpDiff") /\ Rec[l].n = 0 /\ UNCHANGED vars
-(* the container check covers the packs that are present *)
-TraceCheck == IsEvent("Check") /\ Rec[l].res = "true" /\ UNCHANGED vars
+(* the container check covers the packs that are present: true when they are intact, not true when
+   one of them has a byte altered inside its checked range - whatever else is missing *)
+TraceCheck == IsEvent("Check") /\ (IF Rec[l].damaged THEN Rec[l].res \in {"false", "err"} ELSE Rec[l].res = "true") /\ UNCHANGED vars
 
 (* C12: one rewrite of a location *)
 TraceSetLocation ==
